@@ -82,6 +82,7 @@ def items(tier, seed):
         if tier == 'thorough' or j % 4 == seed % 4:
             k = j // 4
             yield ('wrapper', it, k % 4, (k // 4) % 3, 0, 0)      # entropy weight and prior kind rotate independently
+            yield ('wrapper', it, k % 4, (k // 4) % 3, 1 + k % 3, 0)      # the same with an iteration budget of 1..3
 
 
 def lse_weighted(xs, ps):
@@ -129,17 +130,29 @@ def check(item, tier):
         wv = [w * (1 + (s % 2)) for s in range(S)] if per_state_w else [w] * S
         ew = torch.tensor(wv, dtype=torch.float64) if per_state_w else float(w)
         force = bool(force_i)
+        for budget in (2000, 1 + (cfg + prior_i) % 3):
+            check_tensor_run(r, item, torch, entropy_regularized_policy_iteration, spec, spec_item, tf, rf, gamma, w, wv, ew, prior, prior_rows,
+                             prior_opt, per_state_w, force, budget, S, A, names, cfg, prior_i)
+    return r
+
+
+def check_tensor_run(r, item, torch, entropy_regularized_policy_iteration, spec, spec_item, tf, rf, gamma, w, wv, ew, prior, prior_rows,
+                     prior_opt, per_state_w, force, budget, S, A, names, cfg, prior_i):
+    """One run with an iteration budget (the full 2000 or a tiny 1..3): whenever convergence is REPORTED the equations must hold."""
+    if True:
         r.count('states')
         try:
             res = entropy_regularized_policy_iteration(
                 transition_matrix=torch.from_numpy(tf), reward_matrix=torch.from_numpy(rf), discount_rate=float(gamma),
-                entropy_weight=ew, n_planning_iters=2000, policy_prior=prior, force_nonzero_probabilities=force)
+                entropy_weight=ew, n_planning_iters=budget, policy_prior=prior, force_nonzero_probabilities=force)
         except Exception as e:
-            r.violation('exception', {'error': repr(e)[:300]}, item)
+            r.violation('exception', {'error': repr(e)[:300], 'n_planning_iters': budget}, item)
             return r
         if not res.converged:
-            r.count('not_converged')
+            r.count('not_converged' if budget == 2000 else 'not_converged_within_tiny_budget')
             return r
+        if budget != 2000:
+            r.count('converged_within_tiny_budget')
         pi = res.policy.numpy().tolist()
         q = res.action_values.numpy().tolist()
         v = res.state_values.numpy().tolist()
@@ -147,7 +160,7 @@ def check(item, tier):
         rmax = max(abs(x) for x in rf.flatten())
         scale = 1 + rmax / (1 - g)
         tol = 2e-4 * scale
-        ctx = {'gamma': gamma, 'w': wv, 'prior': prior_rows, 'force': force}
+        ctx = {'gamma': gamma, 'w': wv, 'prior': prior_rows, 'force': force, 'n_planning_iters': budget}
         for s in range(S):
             for ai in range(A):
                 look = sum(tf[s, ai, ns] * (rf[s, ai, ns] + g * v[ns]) for ns in range(S))
@@ -182,7 +195,8 @@ def check(item, tier):
 
 
 def check_wrapper(item, r, torch, Planner, fn):
-    kind, spec_item, wi, prior_kind, _, _ = item
+    kind, spec_item, wi, prior_kind, tiny, _ = item
+    budget = tiny if tiny else 2000
     spec = Spec(spec_item)
     w = WEIGHTS[wi]
     r.count('states')
@@ -201,19 +215,21 @@ def check_wrapper(item, r, torch, Planner, fn):
         prior_rows = [[0.25, 0.75] if i % 2 == 0 else [0.5, 0.5] for i in range(nS)]
         prior_arg = torch.tensor(prior_rows, dtype=torch.float64)
     try:
-        res = Planner(iterations=2000, entropy_weight=w, policy_prior=prior_arg).plan_on(mdp)
+        res = Planner(iterations=budget, entropy_weight=w, policy_prior=prior_arg).plan_on(mdp)
     except Exception as e:
-        r.violation('wrapper_exception', {'error': repr(e)[:300]}, item)
+        r.violation('wrapper_exception', {'error': repr(e)[:300], 'iterations': budget}, item)
         return r
     if not res.converged:
-        r.count('not_converged')
+        r.count('not_converged' if budget == 2000 else 'not_converged_within_tiny_budget')
         return r
+    if tiny:
+        r.count('converged_within_tiny_budget')
     g = float(spec.gamma)
     sl, al = mdp.sl, mdp.al
     present = [s for s in range(spec.n) if sl(s) in set(mdp.state_list)]
     rmax = max(abs(float(x)) for s in range(spec.n) for a in spec.acts[s] for x in spec.R[s][a].values())
     tol = 2e-4 * (1 + rmax / (1 - g))
-    ctx = {'w': w}
+    ctx = {'w': w, 'iterations': budget}
     for s in present:
         acts = spec.acts[s]
         V = {t: float(res.V[sl(t)]) for t in present}
